@@ -1,4 +1,5 @@
 import Marwood.Vm.ConcreteHeap
+import Marwood.Vm.ListExt
 import Driver.VmStep
 /-!
 # Driver command `simstep`: one instruction of `step (concreteOps ext)` on a complete real heap snapshot
@@ -25,7 +26,7 @@ heap   := H <chunk> <capacity> <m> (<addr> gc ccell)*m  F <k> run*k  T <n> (<nam
           run := <a> | <a>+<n> | <a>-<n>; the free list is given NEXT ADDRESS FIRST (= `CHeap.free`)
 delta  := D <capacity'> <m> (<addr> gc ccell)*m  F <keep> <n> addr*n  T <r> name*r <a> (<name> <addr>)*a
           GS <n> addr*n  GV <len'> <m> (<idx> cell)*m
-ext    := X none | X ok <acc'> delta | X err <class> | X panic
+ext    := X none | X ok <acc'> delta | X err <class> | X panic | X lx <idx> <0|1>
 request  := simstep <info> regs heap ext            (`info` = i:<opcode>:<kind>:<core|ext|alias>:<scr|lin>:<n> is for
                                                      the Python side only: counts, and the `alias` bucket — CONS / VARARG
                                                      of an inline Rc payload — is compared on registers, stack and number
@@ -34,6 +35,10 @@ response := ok <sp> <bp> <ep> <ipl> <ipo> <acc> <halt> <cap> <n> cell*n delta | 
 ```
 `ext` instantiates `ExtOps` for this one step: `builtinEval` / `compileEval` / `vectorPush` return the recorded
 result and the pre-heap with the recorded delta applied (or the recorded error class / a panic).
+`X lx <idx> <bit>` (mode `runlx` of the harness, info bucket `listext`): nothing is recorded — the generic builtin
+called by this CALL / TCALL is entry `idx` of the table of `Marwood/Vm/ListExt.lean` and its result and heap effect are
+COMPUTED by `ListExt.builtinEval` (the model the law theorems `listExtWith_laws`, `listExtWith_good`, … are about);
+`bit` is the payload equality `eqTag` of two number / two string operands of `eq?` / `eqv?` (opaque tags here).
 Anything that does not decode answers `none` (the dispatcher prints `bad-op`).
 -/
 namespace Marwood.Driver.SimStep
@@ -283,11 +288,16 @@ inductive ExtRec
   | ok (v : VCell) (d : Delta)
   | err (cls : String)
   | panic
+  | lx (idx : Nat) (bit : Bool)
 
 def decExt : Toks → Option (ExtRec × Toks)
   | "X" :: "none" :: ts => some (.none, ts)
   | "X" :: "panic" :: ts => some (.panic, ts)
   | "X" :: "err" :: c :: ts => some (.err c, ts)
+  | "X" :: "lx" :: i :: b :: ts => do
+    let i ← i.toNat?
+    let b ← (match b with | "0" => some false | "1" => some true | _ => none)
+    pure (.lx i b, ts)
   | "X" :: "ok" :: v :: ts => do
     let v ← decCell v
     let (d, ts) ← decDelta ts
@@ -320,10 +330,13 @@ def recorded (x : ExtRec) (h : CHeap) : Outcome (CHeap × VCell) :=
   | .err c => .err (errOfName c)
   | .panic => .panic "recorded panic"
   | .none => .panic "no recorded outcome for an ExtOps parameter"
+  | .lx _ _ => .panic "no recorded outcome for an ExtOps parameter (listext step)"
 
 def mkExt (x : ExtRec) : ExtOps where
   builtinKind _ id := kindOfId id
-  builtinEval h _ _ := recorded x h
+  builtinEval h _ args := match x with
+    | .lx idx bit => ListExt.builtinEval (fun _ _ => bit) h (4 * idx) args
+    | _ => recorded x h
   compileEval h _ := recorded x h
   vectorPush h _ _ := match recorded x h with
     | .ok (h', _) => .ok h'
